@@ -71,10 +71,11 @@ type rpcWorld struct {
 	sigID   map[solana.Signature]int
 	hashID  map[string][2]int64 // entry hash (raw bytes as string) -> <<slot, entry index>>
 	truthTx map[int]*fixture.TxTruth
+	truthBl map[uint64]*fixture.BlockTruth
 }
 
 func rpcBuildWorld(t *testing.T, a []aEpoch, seed int64) (*rpcWorld, string) {
-	w := &rpcWorld{sigID: map[solana.Signature]int{}, hashID: map[string][2]int64{}, truthTx: map[int]*fixture.TxTruth{}}
+	w := &rpcWorld{sigID: map[solana.Signature]int{}, hashID: map[string][2]int64{}, truthTx: map[int]*fixture.TxTruth{}, truthBl: map[uint64]*fixture.BlockTruth{}}
 	cache := vCache(t) // one cache shared by every epoch, as in the server
 	for i, ep := range a {
 		l, err := vBuild(t, ep.spec(seed+int64(i)*17, 2+i%4), false)
@@ -88,6 +89,7 @@ func rpcBuildWorld(t *testing.T, a []aEpoch, seed int64) (*rpcWorld, string) {
 		l.epoch = e
 		w.eps = append(w.eps, l)
 		for _, bt := range l.built.Blocks {
+			w.truthBl[bt.Spec.Slot] = bt
 			for ei, h := range bt.EntryHashes {
 				w.hashID[string(h)] = [2]int64{int64(bt.Spec.Slot), int64(ei + 1)}
 			}
@@ -289,6 +291,21 @@ func (w *rpcWorld) jsonGetBlock(h func(body string) (int, string, any), slot uin
 		c.Prev = w.hashOf(b)
 	}
 	c.Txsame, c.Metasame = true, true
+	if bt := w.truthBl[slot]; bt != nil {
+		// rewards: the archived list, entry for entry (pubkey, lamports, post balance)
+		got, _ := r["rewards"].([]any)
+		ok := len(got) == len(bt.RewardList)
+		for i := 0; ok && i < len(got); i++ {
+			m, _ := got[i].(map[string]any)
+			lam, _ := m["lamports"].(float64)
+			pb, _ := m["postBalance"].(float64)
+			ok = m["pubkey"] == bt.RewardList[i].Pubkey && int64(lam) == bt.RewardList[i].Lamports && uint64(pb) == bt.RewardList[i].PostBalance
+		}
+		if !ok {
+			c.Metasame = false
+			c.Detail += fmt.Sprintf("rewards: %d entries, archived %d (or an entry differs); ", len(got), len(bt.RewardList))
+		}
+	}
 	txs, _ := r["transactions"].([]any)
 	for _, x := range txs {
 		m, _ := x.(map[string]any)
@@ -398,6 +415,11 @@ func (w *rpcWorld) fillBlock(c *rpcCall, resp *old_faithful_grpc.BlockResponse, 
 		c.Txsame = true
 	}
 	c.Metasame = true
+	if bt := w.truthBl[slot]; bt != nil && !bytes.Equal(resp.Rewards, bt.Rewards) {
+		// (metasame also stands for the block's rewards: the uncompressed rewards payload, byte for byte)
+		c.Metasame = false
+		c.Detail += fmt.Sprintf("rewards: %d bytes, archived %d bytes; ", len(resp.Rewards), len(bt.Rewards))
+	}
 	for i, tx := range resp.Transactions {
 		id := w.sigIDOfTx(tx.Transaction, "")
 		c.Sigs = append(c.Sigs, id)
